@@ -41,12 +41,16 @@ def cps(s):
 
 
 def case(ctype, data, cl='len', chunked=False, sched=None, mem=102400, maxb=None, access='forms', cl_raw=None,
-         te=None, pre='none', no_ctype=False, app='own', cfg_via='ctor'):
+         te=None, pre='none', no_ctype=False, app='own', cfg_via='ctor', lazy='no'):
     """cl: 'len' | int (-1 = header absent) ; cl_raw: the CONTENT_LENGTH header text verbatim (overrides cl) ;
     te: the Transfer-Encoding header text (default: 'chunked' when chunked);
     pre: a property the handler reads BEFORE the observed one ('none' | forms | files | POST | json | body: a partial
     body.read(3)); no_ctype: the CONTENT_TYPE key is absent from environ (ctype must be '');
-    app: 'own' | 'shared' (one module-level application for many cases); cfg_via: 'ctor' | 'setup'"""
+    app: 'own' | 'shared' (one module-level application for many cases); cfg_via: 'ctor' | 'setup';
+    lazy: how the handler consumes the request data: 'no' (inside the handler) | 'gen_all' (the handler returns a generator
+    and everything, parsing included, happens when its first chunk is pulled — after Ombott._handle returned) |
+    'gen_after' (parsed in the handler, but forms/uploads/body are READ by the generator after the response has started:
+    the server pulls the second chunk) | 'file' (the handler returns the first upload's file object as the response)"""
     data = list(data)
     if cl_raw is None:
         n = len(data) if cl == 'len' else cl
@@ -55,7 +59,7 @@ def case(ctype, data, cl='len', chunked=False, sched=None, mem=102400, maxb=None
         te = 'chunked' if chunked else ''
     return dict(ctype=cps(ctype), data=data, cl_raw=None if cl_raw is None else cps(cl_raw), te=cps(te),
                 chunked='chunked' in te.lower(), sched=sched or [], mem=mem, maxb=maxb, access=access, pre=pre,
-                no_ctype=bool(no_ctype and not ctype), app=app, cfg_via=cfg_via)
+                no_ctype=bool(no_ctype and not ctype), app=app, cfg_via=cfg_via, lazy=lazy)
 
 
 def cl_text(case):
@@ -185,6 +189,19 @@ def corpus():
     out.append(case(CT_MP, part(CD + b'name="f\x00"; filename="x\x00.bin"', b'DATA', b'\r\nContent-Type: a/b') + END,
                     access='POST'))
     out.append(case(CT_MP, part(CD + b'name="t"', b'v', b'\r\nX-Custom: a\x00b') + END))
+    # ---- data consumed LAZILY, after the handler (and Ombott._handle) returned, with bodies above max_memfile_size
+    # (buffered in a temporary file): generator handlers, an upload's file object returned as the response
+    bigf = part(CD + b'name="f"; filename="x.bin"', bytes(range(256)) * 3, b'\r\nContent-Type: a/b')
+    for lz in ('gen_all', 'gen_after', 'file'):
+        out.append(case(CT_MP, ok1 + bigf + END, mem=200, access='files', lazy=lz))
+        out.append(case(CT_MP, ok1 + bigf + END, mem=102400, access='POST', lazy=lz))
+        out.append(case(CT_MP, F.chunked(ok1 + bigf + END, [300, 90], 1), cl=-1, chunked=True, mem=128, access='forms', lazy=lz))
+    out.append(case('text/plain', bytes(range(200)) * 4, mem=64, access='body', lazy='gen_after'))
+    out.append(case('text/plain', bytes(range(200)) * 4, mem=64, access='body', lazy='gen_all'))
+    out.append(case('application/x-www-form-urlencoded', b'a=1&b=2', mem=4, access='forms', lazy='gen_all'))      # 413 from a generator
+    out.append(case(CT_MP, b'garbage', access='forms', lazy='gen_all'))                                            # 400 from a generator
+    out.append(case('application/json', b'{', access='json', lazy='gen_all'))
+    out.append(case('application/json', b'{"a": 1}' + b' ' * 300, mem=400, access='json', lazy='gen_after'))
     # ---- "count" thresholds a hardening might add: very many tiny fields / bare separators / keys / parts (seed C12-13).
     # (kept after the first 40 corpus cases: those are also evaluated inside Coq)
     many = [b'&' * 2000, b'&'.join(b'k%d=%d' % (i, i) for i in range(1001)), b'a=1&' * 1500, b'a&' * 3000, b';' * 2500,
@@ -357,7 +374,8 @@ def nasty_header(rng):
 def extra(rng, ctype):
     """the audit dimensions: a property read before the observed one, absent CONTENT_TYPE, shared application,
     configuration path"""
-    return dict(pre=rng.choice(['none', 'none', 'none', 'body', 'json', 'forms', 'files', 'POST']),
+    return dict(lazy=rng.choice(['no', 'no', 'no', 'gen_all', 'gen_after', 'file']),
+                pre=rng.choice(['none', 'none', 'none', 'body', 'json', 'forms', 'files', 'POST']),
                 no_ctype=(ctype == '' and rng.random() < 0.5),
                 app=rng.choice(['own', 'own', 'shared']), cfg_via=rng.choice(['ctor', 'setup']))
 
@@ -408,7 +426,7 @@ def gen(rng, n):
             continue
         if fr < 0.25:
             # chunked framing, full reads; corrupt the encoding sometimes (never for json: the json oracle needs the payload)
-            wire = F.chunked(body, [rng.randrange(1, 40) for _ in range(rng.randrange(1, 4))])
+            wire = F.chunked(body, [rng.randrange(1, 40) for _ in range(rng.randrange(1, 4))], rng.randrange(F.CHUNK_STYLES))
             is_json = ctype.lower().lstrip().startswith('application/json')
             if rng.random() < 0.3 and not is_json:
                 wire = mutate(rng, wire)
@@ -500,7 +518,31 @@ def _handler():
         rq.body.read(3)                   # a partial read: the next property must rewind the buffered body itself
     elif pre != 'none':
         _read(rq, pre, {}, 'x')
-    _read(rq, case['access'], seen, 'value')
+    access = case['access']
+    lazy = case.get('lazy', 'no')
+    if lazy == 'gen_all':
+        def g_all():
+            _read(rq, access, seen, 'value')
+            yield b'ok'
+        return g_all()
+    if lazy == 'gen_after':
+        if access == 'body':                  # parse / buffer now ...
+            rq.body
+        else:
+            getattr(rq, access)
+
+        def g_after():
+            yield b'o'                        # ... the response starts ...
+            _read(rq, access, seen, 'value')  # ... and the data is consumed while the server iterates the response
+            yield b'k'
+        return g_after()
+    _read(rq, access, seen, 'value')
+    if lazy == 'file' and seen['value'][0] == 'mp':
+        ups = [x for v in rq.files.values() for x in (v if isinstance(v, list) else [v])]
+        if ups:
+            ups[0].file.seek(0)
+            seen['file_content'] = [it for _, _, items in seen['value'][3] for it in items][0]
+            return ups[0].file                # streamed by the server after the handler (and _handle) returned
     return 'ok'
 
 
@@ -534,7 +576,7 @@ def _run_impl(case):
         env['HTTP_TRANSFER_ENCODING'] = ''.join(chr(c) for c in case['te'])
     status = []
     # per-request alarm (F.call_guarded: a BaseException nothing in the framework swallows; 1.5 s, 0.1 s after 3 hangs)
-    done, _ = F.call_guarded(lambda: b''.join(app(env, lambda s, h, e=None: status.append(s))))
+    done, resp = F.call_guarded(lambda: b''.join(app(env, lambda s, h, e=None: status.append(s))))
     if not done:
         return {'hang': True}
     code = int(status[0].split()[0])
@@ -546,6 +588,9 @@ def _run_impl(case):
         obs['value'] = seen.get('value')
         if 'buffered' in seen:
             obs['buffered'] = seen['buffered']
+        if 'file_content' in seen:
+            it = seen['file_content']
+            obs['streamed'] = [list(resp), it[3] + it[4]]          # response body, content of the returned upload
     return obs
 
 
@@ -620,6 +665,11 @@ def oracle(case, obs):
         return 'server fault: status %s' % st
     if not (st == 200 or 400 <= st < 500):
         return 'unexpected status %s' % st
+    if st == 200 and obs.get('value') is None:
+        return 'the handler\'s lazy response was not produced (lazy=%s)' % case.get('lazy')
+    if 'streamed' in obs and obs['streamed'][0] != obs['streamed'][1]:
+        return 'an upload returned as the response body was streamed as %d bytes, its content is %d bytes' % (
+            len(obs['streamed'][0]), len(obs['streamed'][1]))
     if st == 200 and obs.get('value') and obs['value'][0] == 'mp':
         # a delivered field holds the complete data of a part terminated by a delimiter
         m = BPAT.match(''.join(chr(c) for c in case['ctype']))
@@ -660,6 +710,9 @@ PREDICATES = {'content_length_not_int': content_length_not_int}
 # AUDIT_BRIEF step 2: what of the anchored API can influence the observation, and which case kind exercises it
 API_SURFACE = [
     ('Request.forms / files / POST / json / body', 'covered by access; two of them in a row by pre (model: process_seq)'),
+    ('request data consumed after the handler returned (generator handlers, upload.file as the response), bodies in memory '
+     'and spooled to a temporary file', 'covered by lazy gen_all | gen_after | file'),
+    ('chunk-size spellings', 'covered: F.chunked(..., style 0..7) on every unmutated chunked wire'),
     ('Request.body after a partial read', 'covered by pre="body" (read(3) first)'),
     ('BodyMixin._body: MULTIPART_BOUNDARY_PATT on the raw CONTENT_TYPE', 'covered by CT_MPS (missing/empty/quoted/CR/LF/upper-case/trailing-; boundaries)'),
     ('CONTENT_TYPE absent from environ', 'covered by no_ctype'),
